@@ -16,7 +16,7 @@ SCOPE = {
     'C05': ['server::state', 'server::binary::handlers', 'server::http', 'server::streaming::systems', 'server::streaming::streams', 'server::streaming::topics'],
     'C06': ['server::streaming::systems', 'server::streaming::streams', 'server::streaming::topics', 'server::state::system'],
     'C07': ['server::streaming::partitions::consumer_offsets', 'server::streaming::systems::consumer_offsets', 'server::streaming::topics::consumer_offsets', 'server::streaming::partitions::storage', 'server::streaming::polling_consumer', 'server::streaming::topics::consumer_groups', 'server::streaming::partitions::persistence', 'server::streaming::topics::consumer_group'],
-    'C08': ['server::streaming::topics::consumer_group', 'server::streaming::systems::consumer_groups', 'server::streaming::clients', 'server::streaming::topics::consumer_groups', 'server::streaming::topics::storage', 'server::streaming::topics::consumer_offsets'],
+    'C08': ['server::streaming::topics::consumer_group', 'server::streaming::systems::consumer_groups', 'server::streaming::clients', 'server::streaming::topics::consumer_groups', 'server::streaming::topics::storage', 'server::streaming::topics::consumer_offsets', 'server::streaming::topics::topic', 'server::streaming::polling_consumer'],
     'C09': ['server::streaming::users', 'server::streaming::systems', 'server::http::jwt', 'server::binary::handlers', 'server::http', 'iggy::models::permissions', 'server::state::system'],
     'C10': ['server::streaming::users', 'server::streaming::personal_access_tokens', 'server::streaming::systems::users', 'server::streaming::systems::personal_access_tokens', 'server::http::jwt', 'server::streaming::session', 'server::binary::handlers::users', 'server::binary::handlers::personal_access_tokens', 'server::http::users', 'server::http::personal_access_tokens', 'server::state::system'],
     'C11': ['server::state'],
@@ -39,7 +39,10 @@ FLOORS = {'C01': 66, 'C02': 80, 'C03': 160, 'C04': 62, 'C05': 100, 'C06': 126, '
 def _argname(b, c, a):
     f = canon(b.pexpr_operand(a, 0, frozenset(), (c.bb, 't')), 0, 1)
     m = re.fullmatch(r'(?:[\w\.]+\.)?(\w+)', f)
-    return m.group(1) if m else None
+    if m:
+        return m.group(1)
+    m = re.search(r'\)\.(\w+)$', f)       # a field of a call result: `RwLock::read(group).group_id`
+    return m.group(1) if m and not m.group(1).isdigit() else None
 
 
 def in_scope(ctx, fn, prop):
@@ -49,6 +52,11 @@ def in_scope(ctx, fn, prop):
     mod = rec.get('mod') or ''
     f = fn.lstrip('<')
     return any(f.startswith(p) or mod.startswith(p.rstrip(':')) for p in SCOPE[prop])
+
+
+ALLOW = {   # (callee short name, parameter, argument name) -> why the names differ on purpose
+    ('verify_password', 'hash', 'password'): 'User.password holds the bcrypt hash of the password (the field is named after what it stands for, not after what it contains)',
+}
 
 
 def _same(arg, par):
@@ -95,6 +103,8 @@ def check(ctx, rep, prop, floor=None):
             if not others or not names[i] or not pn[i]:
                 continue
             bad = [j for j in others if _same(names[i], pn[j]) and not _same(names[i], pn[i])]
+            if bad and (c.name.split('::')[-1], pn[i], names[i]) in ALLOW:
+                bad = []
             n += 1
             rep.ob(rid, key, '%s(%s: %s)' % (c.name.split('::')[-1], pn[i], names[i]), not bad, c.where(), None if not bad else
                    'the argument for parameter `%s` of %s is `%s`, the name of its parameter `%s` of the same type (%s): the two values are exchanged or one is passed twice' % (pn[i], c.name, names[i], pn[bad[0]], pt[i]))
